@@ -39,6 +39,12 @@ def cal_spec(kind: str) -> Spec:
         r.hours, r.vacation = LUNCH, ["2025-01-08 - 2025-01-10"]
     elif kind == "tokyo":
         r.hours, r.tz = ["mon - fri 9:00 - 17:00"], "Asia/Tokyo"
+    elif kind == "tokyo-vacation":
+        # the Tokyo working day begins at 00:00 UTC, i.e. exactly at the first instant of a date-only global vacation
+        r.hours, r.tz, vac = ["mon - fri 9:00 - 17:00"], "Asia/Tokyo", ["2025-01-07", "2025-01-09 - 2025-01-10"]
+    elif kind == "night-vacation":
+        # a night shift is running when the global vacation begins at midnight
+        r.hours, vac = ["mon - fri 22:00 - 6:00"], ["2025-01-08"]
     elif kind == "ny-mar":
         r.hours, r.tz, start = ["mon - fri 9:00 - 17:00"], "America/New_York", datetime(2025, 3, 3)
     elif kind == "ny-nov":
@@ -62,6 +68,18 @@ def cal_spec(kind: str) -> Spec:
     elif kind == "default":
         vac = ["2025-01-09"]
     tasks = [Task("a", effort=P("e0"), alloc=["r"]), Task("b", effort=P("e1"), alloc=["r"], deps=[Dep("a")])]
+    if kind.startswith("booking-"):
+        # a blocking booking from Tuesday 09:00 for one unit of the duration (the first task ends around Monday evening)
+        r.bookings = [("2025-01-07-09:00", "1" + kind.split("-")[1])]
+        length = "4w" if kind != "booking-m" else "9w"
+    if kind == "holiday-bound":
+        # a global holiday on Tuesday; the successor runs on ANOTHER resource and its dependency bound (end of a + 990 min)
+        # falls into the first working slot of the holiday
+        sp = Spec([Task("a", effort=P("e0"), alloc=["r"]), Task("b", effort=P("e1"), alloc=["q"], deps=[Dep("a", gap="990min")])], [r, Res("q")],
+                  start=start, length=length, resolution=res, global_leaves=["2025-01-07"])
+        return sp
+    if kind == "holiday":
+        return Spec(tasks, [r], start=start, length=length, resolution=res, global_leaves=["2025-01-07", "2025-01-09 - 2025-01-11"])
     return Spec(tasks, [r], start=start, length=length, resolution=res, vacations=vac, shifts=shifts)
 
 
@@ -73,6 +91,14 @@ def on_calendar(spec, vals, obs, info):
         ref = CAL.ref_calendar(spec, info["size"], info["g"])
     fails = O.booked_on_shift(spec, vals, obs, info, ref)
     with world.notrace():  # both tables are concrete
+        if spec.global_leaves:
+            # project-level 'leaves' are kept as scoreboard markers, not in onShift(): clause (2) compares the onShift table with the
+            # calendar without them (clause (1) judges the bookings against the full calendar)
+            import copy
+
+            sp2 = copy.copy(spec)
+            sp2.global_leaves = []
+            ref = CAL.ref_calendar(sp2, info["size"], info["g"])
         for rid, tab in info.get("onshift", {}).items():
             for i, v in enumerate(tab):
                 if v and not ref[rid][i]:
@@ -82,7 +108,8 @@ def on_calendar(spec, vals, obs, info):
 
 
 KINDS = ["own", "shift", "default", "vacation", "leave1", "leaveN", "resvac", "resvacN", "tokyo", "ny-mar", "ny-nov", "la-mar-night", "la-nov-evening", "berlin-mar-early",
-         "kiritimati", "pagopago", "night", "night1", "res900"]
+         "kiritimati", "pagopago", "night", "night1", "res900", "booking-d", "booking-w", "booking-m", "holiday", "holiday-bound",
+         "tokyo-vacation", "night-vacation"]
 
 
 def cells(tier: str) -> dict:
